@@ -36,7 +36,7 @@ RULE = ("case families: train = (symmetric matrix A of 2-4 modes from {0/1 graph
         "zeros/negatives, threshold flag, data set of photon/click patterns, cost function h); sim = (graph of 2-4 nodes, n_mean, "
         "loss, photon number, max count); dyn = (frequencies, time(s), orthogonal U_l, Gaussian or Fock input); vib = (w, w', "
         "Duschinsky matrix, displacement, temperature); dus = (normal modes L_i, L_f, geometries, masses, w_f); marg = (Gaussian "
-        "state, n_max, hbar); smp = (sample_fock / sample_tmsv / sample_coherent arguments, valid or malformed); bad = malformed arguments.  Non-trivial = at least 2 modes and, per family: train: A(theta) has a "
+        "state, n_max, hbar); smp = (sample_fock / sample_tmsv / sample_coherent arguments, valid or malformed); bad = malformed arguments; hist = a history of calls on ONE embedding / VGBS / KL / Stochastic instance with the parameter array updated in place, aliased, viewed or re-allocated and the sample store extended in between, each result compared with fresh objects at the current values.  Non-trivial = at least 2 modes and, per family: train: A(theta) has a "
         "non-zero off-diagonal entry and theta is not all zero; sim: loss > 0 or an orbit with a repeated part; dyn: t != 0 and "
         "non-degenerate frequencies; vib: w != w' ; dus: L_i != L_f; marg: correlated modes")
 TRUSTED_BASE = [
@@ -131,10 +131,10 @@ def gbs_cov(A, loss=0.0):
     return T * cov + (1 - T) * (HBAR / 2) * np.eye(2 * n)
 
 
-def ref_table(cov, cut, mu=None):
+def ref_table(cov, cut, mu=None, hbar=HBAR):
     n = len(cov) // 2
     mu = np.zeros(2 * n) if mu is None else mu
-    return np.real(twq.probabilities(mu, cov, cut, hbar=HBAR))
+    return np.real(twq.probabilities(mu, cov, cut, hbar=hbar))
 
 
 def ref_mean_photons(cov, mu=None):
@@ -334,6 +334,8 @@ def nontrivial(case):
         return len(case["orbit"]) >= case["modes"]
     if f == "dim":
         return case["d"] != case["len"]
+    if f == "hist":
+        return any(st["op"] == "update" and st["how"] in ("isub", "setitem", "slice", "clip", "imul", "fill_back") for st in case["steps"])
     if f == "smp":
         return case["n"] >= 2 and not case["bad"] and case["loss"] in (0.0, 1.0)
     return False
@@ -459,8 +461,52 @@ def check_train(case):
         out.append(("vgbs:mean-clicks-vs-state", "mean_clicks_by_mode %r vs reference state %r" % (_lst(mc), _lst(mc_ref2))))
     if thr and not _close(vg.prob_sample(theta, np.array(list(cl)[-1])), cl[list(cl)[-1]], 1e-12):
         out.append(("vgbs:prob_sample-dispatch", "prob_sample (threshold) differs from prob_click"))
+    # --- sampling: the sampler is handed the state of the matrix it is asked about, the right detector model, shots, hbar
+    import thewalrus.samples as tws
+    calls = []
+    orig_h, orig_t = tws.hafnian_sample_state, tws.torontonian_sample_state
+
+    def fake(kind):
+        def f(cov_, n_samples, *a, **kw):
+            calls.append((kind, np.array(cov_), n_samples, a, dict(kw)))
+            return np.full((n_samples, n), 7 if kind == "haf" else 1, dtype=int)
+        return f
+
+    tws.hafnian_sample_state, tws.torontonian_sample_state = fake("haf"), fake("tor")
+    try:
+        got = np.asarray(vg.generate_samples(Ath, 3))
+        vgs = tparam.VGBS(S["A"], case["n_mean"], S["emb"], thr, samples=data[:1])
+        got2 = np.asarray(vgs.get_A_init_samples(3))
+        got3 = np.asarray(vgs.get_A_init_samples(2))
+    except Exception as e:  # noqa: BLE001
+        got = None
+        out.append(("vgbs:generate-samples:raises:" + type(e).__name__, "generate_samples / get_A_init_samples raised %r" % (e,)))
+    finally:
+        tws.hafnian_sample_state, tws.torontonian_sample_state = orig_h, orig_t
+    if got is not None:
+        want_kind = "tor" if thr else "haf"
+        ok_calls = (len(calls) == 2 and all(c[0] == want_kind for c in calls) and calls[0][2] == 3 and calls[1][2] == 2
+                    and all(c[4].get("hbar", c[3][0] if c[3] else None) == sf.hbar for c in calls))
+        if not ok_calls:
+            out.append(("vgbs:generate-samples:dispatch", "sampler calls (kind, shots, kwargs) = %r for threshold=%s: expected %s with 3 then 2 shots and hbar=%r"
+                        % ([(c[0], c[2], c[4]) for c in calls], thr, want_kind, sf.hbar)))
+        else:
+            t1 = ref_table(calls[0][1], min(cut, 5), hbar=sf.hbar)
+            t2 = ref_table(calls[1][1], min(cut, 5), hbar=sf.hbar)
+            if not _close(t1, ref_table(cov, min(cut, 5)), 1e-8) or not _close(t2, ref_table(gbs_cov(vg.A_init), min(cut, 5)), 1e-8):
+                out.append(("vgbs:generate-samples:state", "the covariance handed to the sampler does not have the photon statistics of the requested matrix"))
+            exp2 = np.vstack([data[:1], np.full((2, n), 1 if thr else 7, dtype=int)])
+            if got.shape != (3, n) or got2.shape != (3, n) or not np.array_equal(got2, exp2) or not np.array_equal(got3, exp2[:2]):
+                out.append(("vgbs:sample-store", "get_A_init_samples(3) with one stored sample returned %r (expected the stored row followed by 2 new ones), then get(2) returned %r" % (got2.tolist(), got3.tolist())))
+    # static helpers are pure
+    pure_call(out, "prob_photon_sample", tparam.prob_photon_sample, Ath, np.array(pats[1]))
+    pure_call(out, "prob_click", tparam.prob_click, Ath, np.array([1] + [0] * (n - 1)))
+    pure_call(out, "A_to_cov", tparam.A_to_cov, Ath)
+    pure_call(out, "rescale_adjacency", tparam.rescale_adjacency, S["A"], case["n_mean"], thr)
     # --- KL cost and gradient
     kl = tcost.KL(data, vg)
+    if not _res_close(kl(theta), kl.evaluate(theta), 1e-12):
+        out.append(("kl:call", "KL.__call__ differs from KL.evaluate"))
     ref_p = [cl[tuple(s)] if thr else table[tuple(s)] for s in data.tolist()]
     ref_logs = [math.log(x) if x > 0 else -math.inf for x in ref_p]
     if all(math.isfinite(x) for x in ref_logs):
@@ -503,6 +549,8 @@ def check_train(case):
                 st3 = tcost.Stochastic(h, vg3)
                 if not (_close(st3.grad(theta, N), g, 1e-12) and _close(st3.evaluate(theta, N), st.evaluate(theta, N), 1e-12)):
                     out.append(("vgbs:sample-store", "cost/gradient differ between samples pre-loaded at once and added in two steps"))
+        if not _res_close(st(theta, N), st.evaluate(theta, N), 1e-12):
+            out.append(("stochastic:call", "Stochastic.__call__ differs from Stochastic.evaluate"))
         if not _close(st.evaluate(theta, N), np.mean([st.h_reparametrized(s, theta) for s in data]), 1e-12):
             out.append(("stochastic:evaluate-mean", "Stochastic.evaluate is not the mean of h_reparametrized over the stored samples"))
     return out
@@ -535,8 +583,38 @@ def check_sim(case):
         if not _close(got, exp_p, 1e-8):
             out.append(("similarity:orbit-prob", "prob_orbit_exact(%r) = %r, reference state gives %r" % (orbit, _f(got), _f(exp_p))))
             break
+    # feature vectors with exact probabilities are the lists of the exact orbit / event probabilities, in order
+    orbs = [o for o in partitions(N) if o and len(o) <= n][:3]
+    if orbs:
+        exp_fv = [sum(table[p] for p in pats if sorted([x for x in p if x], reverse=True) == o) for o in orbs]
+        try:
+            fv = pure_call(out, "feature_vector_orbits", similarity.feature_vector_orbits, g, [list(o) for o in orbs], nm, None, loss)
+            if not _close(np.array(fv, dtype=float), exp_fv, 1e-8):
+                out.append(("similarity:feature-vector-orbits", "feature_vector_orbits(%r) = %r, reference %r" % (orbs, fv, exp_fv)))
+        except Exception as e:  # noqa: BLE001
+            out.append(("similarity:feature-vector-orbits:raises:" + type(e).__name__, "feature_vector_orbits raised %r" % (e,)))
+        if len(case["edges"]) == n * (n - 1) // 2:
+            # complete graph: the state is permutation symmetric, so the Monte Carlo orbit estimate is exact for any draws
+            try:
+                mcp = similarity.prob_orbit_mc(g, list(orbs[0]), n_mean=nm, samples=3, loss=loss)
+                if not _close(mcp, exp_fv[0], 1e-8):
+                    out.append(("similarity:orbit-mc", "prob_orbit_mc(%r) on a complete graph = %r, exact %r" % (orbs[0], _f(mcp), exp_fv[0])))
+            except Exception as e:  # noqa: BLE001
+                out.append(("similarity:orbit-mc:raises:" + type(e).__name__, "prob_orbit_mc raised %r" % (e,)))
+    if not any(len(o) > n and max(o) <= mc for o in partitions(N)) or True:
+        evs = sorted({N, max(N - 1, 0), max(N - 2, 0)})
+        exp_ev = []
+        for M_ in evs:
+            tab = ref_table(gbs_cov(As, loss), M_ + 1)
+            exp_ev.append(sum(tab[p] for p in itertools.product(range(M_ + 1), repeat=n) if sum(p) == M_ and max(p) <= mc))
+        try:
+            fe = pure_call(out, "feature_vector_events", similarity.feature_vector_events, g, list(evs), mc, nm, None, loss)
+            if not _close(np.array(fe, dtype=float), exp_ev, 1e-8):
+                out.append(("similarity:feature-vector-events", "feature_vector_events(%r, max %d) = %r, reference %r" % (evs, mc, fe, exp_ev)))
+        except Exception as e:  # noqa: BLE001
+            out.append(("similarity:feature-vector-events:raises:" + type(e).__name__, "feature_vector_events raised %r" % (e,)))
     try:
-        got = similarity.prob_event_exact(g, N, mc, n_mean=nm, loss=loss)
+        got = pure_call(out, "prob_event_exact", similarity.prob_event_exact, g, N, mc, nm, loss)
         if not _close(got, ev_expected, 1e-8):
             out.append(("similarity:event-prob", "prob_event_exact(%d, %d) = %r, reference state gives %r" % (N, mc, _f(got), _f(ev_expected))))
     except Exception as e:  # noqa: BLE001
@@ -659,7 +737,7 @@ def check_vib(case):
     Ud, delta, T = np.array(case["Ud"]), np.array(case["delta"]), case["T"]
     n = len(w)
     try:
-        t, U1, r, U2, alpha = vibronic.gbs_params(w, wp, Ud, delta, T)
+        t, U1, r, U2, alpha = pure_call(out, "gbs_params", vibronic.gbs_params, w, wp, Ud, delta, T)
     except Exception as e:  # noqa: BLE001
         return [("vibronic:params-raises:" + type(e).__name__, "gbs_params raised %r" % (e,))]
     J = np.diag(wp ** 0.5) @ Ud @ np.diag(w ** -0.5)
@@ -685,9 +763,9 @@ def check_vib(case):
     cov, mu = st.cov(), st.means()
     Ji = np.linalg.inv(J)
     Z = np.zeros((n, n))
-    good = (HBAR / 2) * np.block([[J @ J.T, Z], [Z, Ji.T @ Ji]])
-    swapped = (HBAR / 2) * np.block([[Ji.T @ Ji, Z], [Z, J @ J.T]])
-    mu_ref = np.concatenate([math.sqrt(HBAR) * delta, np.zeros(n)])
+    good = (sf.hbar / 2) * np.block([[J @ J.T, Z], [Z, Ji.T @ Ji]])
+    swapped = (sf.hbar / 2) * np.block([[Ji.T @ Ji, Z], [Z, J @ J.T]])
+    mu_ref = np.concatenate([math.sqrt(sf.hbar) * delta, np.zeros(n)])
     if not _close(mu, mu_ref, 1e-8):
         out.append(("vibronic:doktorov-displacement", "VibronicTransition|0> has means %r, Doktorov relation gives %r" % (_lst(mu), _lst(mu_ref))))
     if not _close(cov, good, 1e-8):
@@ -698,14 +776,93 @@ def check_vib(case):
                         "(Franck-Condon factors differ from the wave-function overlaps unless w = w')"))
         else:
             out.append(("vibronic:doktorov-state", "covariance of VibronicTransition|0> matches neither J J^T nor its inverse"))
-    # sample(): every sample has one entry per mode of the 2N-mode protocol
+    # energies(): E = sum_k m_k w'_k - sum_k n_k w_k for samples (m, n) of the 2N-mode protocol
+    import random as _r
+    r3 = _r.Random(case["np_seed"])
+    smps = [[r3.randrange(0, 4) for _ in range(2 * n)] for _ in range(3)]
+    e_ref = [float(np.dot(x[:n], wp) - np.dot(x[n:], w)) for x in smps]
+    try:
+        e_all = pure_call(out, "energies", vibronic.energies, [list(x) for x in smps], w, wp)
+        e_one = vibronic.energies(list(smps[0]), w, wp)
+        if not (_close(np.array(e_all, dtype=float), e_ref, 1e-12) and _close(e_one, e_ref[0], 1e-12)):
+            out.append(("vibronic:energies", "energies(%r) = %r / single %r, expected %r" % (smps, e_all, e_one, e_ref)))
+    except Exception as e:  # noqa: BLE001
+        out.append(("vibronic:energies:raises:" + type(e).__name__, "energies raised %r" % (e,)))
+    # sample(): every sample has one entry per mode of the 2N-mode protocol; the measured state is
+    # two-mode squeezing (if any) + Doktorov operations on the first N modes + uniform loss
     tt = np.array(case["tmix"]) if case.get("tmix") else t
     if n <= 2:
+        rs, als = np.clip(r, -0.3, 0.3), np.clip(alpha, -0.5, 0.5)
+        loss = [0.0, 0.0, 0.35, 1.0][case["np_seed"] % 4]
+        captured = []
+        orig_run = sf.LocalEngine.run
+
+        def spy_run(self, program, *a, **kw):
+            captured.append(program)
+            return orig_run(self, program, *a, **kw)
+
+        np.random.seed(case["np_seed"])
+        sf.LocalEngine.run = spy_run
+        try:
+            smp = vibronic.sample(tt, U1, rs, U2, als, 2, loss)
+        except Exception as e:  # noqa: BLE001
+            smp = None
+            out.append(("vibronic:sample-raises:" + type(e).__name__, "vibronic.sample raised %r" % (e,)))
+        finally:
+            sf.LocalEngine.run = orig_run
+        if smp is not None and captured:
+            width = 2 * n if np.any(tt != 0) else n
+
+            def build(with_impl):
+                prog = sf.Program(width)
+                with prog.context as q:
+                    if with_impl:
+                        for c in captured[0].circuit:
+                            if type(c.op).__name__ != "MeasureFock":
+                                c.op | tuple(q[x.ind] for x in c.reg)
+                    else:
+                        if width == 2 * n:
+                            for i in range(n):
+                                sf.ops.S2gate(tt[i]) | (q[i], q[i + n])
+                        first = tuple(q[i] for i in range(n))
+                        sf.ops.Interferometer(U1) | first
+                        for i in range(n):
+                            sf.ops.Sgate(rs[i]) | q[i]
+                        sf.ops.Interferometer(U2) | first
+                        for i in range(n):
+                            sf.ops.Dgate(abs(als[i]), float(np.angle(als[i]))) | q[i]
+                        if loss:
+                            for i in range(width):
+                                sf.ops.LossChannel(1 - loss) | q[i]
+                return prog
+
+            try:
+                if captured[0].num_subsystems != width:
+                    out.append(("vibronic:sample-state", "sample() simulates %d modes, expected %d" % (captured[0].num_subsystems, width)))
+                else:
+                    s_i, s_r = _run_gauss(build(True)), _run_gauss(build(False))
+                    if not (_close(s_i.means(), s_r.means(), 1e-8) and _close(s_i.cov(), s_r.cov(), 1e-8)):
+                        out.append(("vibronic:sample-state", "the state measured by vibronic.sample (t=%r, loss=%r) differs from S2(t) + Doktorov operations + loss" % (_lst(tt), loss)))
+            except Exception as e:  # noqa: BLE001
+                out.append(("vibronic:sample-state-raises:" + type(e).__name__, "re-running the sampler's program raised %r" % (e,)))
+            if loss == 1.0 and any(any(x) for x in smp):
+                out.append(("vibronic:sample-total-loss", "loss = 1 but photons were detected"))
+        for badargs, nm_ in (((tt, U1, rs, U2, als, 0), "n_samples"), ((tt, U1, rs, U2, als, 1, 1.5), "loss"), ((tt, U1, rs, U2, als, 1, -0.1), "loss")):
+            try:
+                vibronic.sample(*badargs)
+                out.append(("malformed:vibronic.sample:%s:accepted" % nm_, "vibronic.sample accepted a malformed %s" % nm_))
+            except ValueError:
+                pass
+            except Exception as e:  # noqa: BLE001
+                out.append(("malformed:vibronic.sample:%s:%s" % (nm_, type(e).__name__), "vibronic.sample raised %r instead of ValueError" % (e,)))
         np.random.seed(case["np_seed"])
         try:
-            smp = vibronic.sample(tt, U1, np.clip(r, -0.3, 0.3), U2, np.clip(alpha, -0.5, 0.5), 2)
-            lens = sorted(set(len(s) for s in smp))
-            if lens != [2 * n]:
+            lens = sorted(set(len(s) for s in smp)) if smp is not None else [2 * n]
+            if smp is None:
+                pass
+            elif len(smp) != 2:
+                out.append(("vibronic:sample-count", "2 samples requested, %d returned" % len(smp)))
+            elif lens != [2 * n]:
                 sig = "vibronic:sample-length-mixed-t" if (np.any(tt == 0) and np.any(tt != 0)) else "vibronic:sample-length"
                 out.append((sig, "vibronic.sample with t=%r on %d modes returns samples of length %r instead of %d" % (_lst(tt), n, lens, 2 * n)))
             elif np.all(tt == 0) and any(any(s[n:]) for s in smp):
@@ -720,7 +877,7 @@ def check_dus(case):
     Li, Lf = np.array(case["Li"]), np.array(case["Lf"])
     ri, rf, wf, m, c = (np.array(case[k]) for k in ("ri", "rf", "wf", "m", "c"))
     try:
-        U, delta = qutils.duschinsky(Li, Lf, ri, rf, wf, m)
+        U, delta = pure_call(out, "duschinsky", qutils.duschinsky, Li, Lf, ri, rf, wf, m)
     except Exception as e:  # noqa: BLE001
         return [("duschinsky:raises:" + type(e).__name__, "duschinsky raised %r" % (e,))]
     # q = L^T sqrt(m) (r - r_e); a geometry displaced along the initial normal modes by coordinates c
@@ -751,8 +908,11 @@ def check_marg(case):
     mu, V = st.means(), st.cov()
     n, nmax, hb = case["n"], case["n_max"], case["hbar"]
     try:
-        p = qutils.marginals(mu, V, nmax)
-        p2 = qutils.marginals(mu * math.sqrt(hb / 2), V * hb / 2, nmax, hbar=hb)
+        cur = sf.hbar
+        p = pure_call(out, "marginals", qutils.marginals, mu, V, nmax, cur)
+        p2 = qutils.marginals(mu * math.sqrt(hb / cur), V * hb / cur, nmax, hbar=hb)
+        if cur == 2.0 and not _res_close(qutils.marginals(mu, V, nmax), p, 1e-12):
+            out.append(("marginals:default-hbar", "marginals without hbar differs from hbar=2"))
     except Exception as e:  # noqa: BLE001
         return [("marginals:raises:" + type(e).__name__, "marginals raised %r" % (e,))]
     if p.shape != (n, nmax):
@@ -760,13 +920,32 @@ def check_marg(case):
     if not _close(p, p2, 1e-8):
         out.append(("marginals:hbar", "marginals depend on hbar when the state is rescaled consistently"))
     cut = max(nmax, 8) + 2
-    table = ref_table(V, cut, mu)
+    table = ref_table(V, cut, mu, hbar=sf.hbar)
     tail = max(0.0, 1 - float(np.sum(table)))
     for k in range(n):
         lo = np.array([np.sum(np.take(table, i, axis=k)) for i in range(nmax)])
         if np.any(p[k] < lo - 1e-8) or np.any(p[k] > lo + tail + 1e-8):
             out.append(("marginals:vs-state", "marginal of mode %d = %r, reference state gives %r (+%.1e)" % (k, _lst(p[k]), _lst(lo), tail)))
             break
+    # utils.prob: relative frequency of a Fock state among samples
+    import random as _r
+    r4 = _r.Random(case["n_max"] * 7919 + n)
+    smps = [[r4.randrange(0, 3) for _ in range(n)] for _ in range(r4.choice([1, 4, 9]))]
+    tgt = list(r4.choice(smps)) if r4.random() < 0.7 else [r4.randrange(0, 3) for _ in range(n)]
+    try:
+        fr = pure_call(out, "utils.prob", qutils.prob, [list(x) for x in smps], list(tgt))
+        if not _close(fr, sum(1 for x in smps if x == tgt) / len(smps), 1e-12):
+            out.append(("utils:prob", "prob(%r, %r) = %r" % (smps, tgt, fr)))
+    except Exception as e:  # noqa: BLE001
+        out.append(("utils:prob:raises:" + type(e).__name__, "utils.prob raised %r" % (e,)))
+    for badargs, nm_ in ((([], tgt), "empty-samples"), ((smps, []), "empty-state"), ((smps, tgt + [0]), "length"), ((smps, [-1] + tgt[1:]), "negative")):
+        try:
+            qutils.prob(*badargs)
+            out.append(("malformed:utils.prob:%s:accepted" % nm_, "utils.prob accepted malformed arguments (%s)" % nm_))
+        except ValueError:
+            pass
+        except Exception as e:  # noqa: BLE001
+            out.append(("malformed:utils.prob:%s:%s" % (nm_, type(e).__name__), "utils.prob raised %r instead of ValueError" % (e,)))
     if np.any(np.sum(p, axis=1) > 1 + 1e-9):
         out.append(("marginals:normalised", "a marginal distribution sums to more than one"))
     return out
@@ -923,12 +1102,283 @@ def check_smp(case):
 CHECKS = {"smp": check_smp, "train": check_train, "sim": check_sim, "dyn": check_dyn, "vib": check_vib, "dus": check_dus, "marg": check_marg, "bad": check_bad}
 
 
+HBAR_FAMS = ("train", "sim", "vib", "marg", "dyn", "hist")
+
+
 def run_check(case):
+    """evaluate the family's predicates; cases may ask for a global hbar different from 2 (sf.hbar is restored afterwards)"""
+    old_hbar = sf.hbar
     try:
+        if case.get("hbar_global"):
+            sf.hbar = float(case["hbar_global"])
         return CHECKS[case["family"]](case)
     except Exception as e:  # noqa: BLE001
         import traceback
         return [("%s:check-raises:%s" % (case["family"], type(e).__name__), "evaluating the property raised %r\n%s" % (e, traceback.format_exc()[-800:]))]
+    finally:
+        sf.hbar = old_hbar
+
+
+def gen_case(rng, fam, big=False):
+    case = GENS[fam](rng, big=big) if fam == "train" else GENS[fam](rng)
+    if fam in HBAR_FAMS and rng.random() < 0.3:
+        case["hbar_global"] = rng.choice([1.0, 0.5, 1.7])
+    return case
+
+
+# ======================================================================================
+# stateful histories: results must be a function of the current argument VALUES only
+
+def _snap(x):
+    """deep snapshot of (nested) array-like arguments"""
+    if isinstance(x, np.ndarray):
+        return x.copy()
+    if isinstance(x, (list, tuple)):
+        return type(x)(_snap(y) for y in x)
+    return x
+
+
+def _same(a, b):
+    if isinstance(a, np.ndarray) or isinstance(b, np.ndarray):
+        a, b = np.asarray(a), np.asarray(b)
+        return a.shape == b.shape and a.dtype == b.dtype and bool(np.array_equal(a, b, equal_nan=True)) if a.dtype.kind in "fc" else (a.shape == b.shape and bool(np.array_equal(a, b)))
+    if isinstance(a, (list, tuple)) and isinstance(b, (list, tuple)):
+        return len(a) == len(b) and all(_same(x, y) for x, y in zip(a, b))
+    return a == b
+
+
+def _res_close(a, b, tol=1e-10):
+    if isinstance(a, tuple) and isinstance(b, tuple):
+        return len(a) == len(b) and all(_res_close(x, y, tol) for x, y in zip(a, b))
+    try:
+        return _close(np.asarray(a, dtype=complex), np.asarray(b, dtype=complex), tol)
+    except (TypeError, ValueError):
+        return a == b
+
+
+def pure_call(out, name, fn, *args, **kw):
+    """Call fn(*args) twice; report when it changes its arguments or when the second result differs from the first
+    (hidden state).  Returns the first result."""
+    before = _snap(args)
+    r1 = fn(*args, **kw)
+    if not _same(before, args):
+        out.append(("purity:%s:mutates-input" % name, "%s modified one of its array arguments in place" % name))
+        return r1
+    r1s = _snap(r1)
+    r2 = fn(*args, **kw)
+    if not _res_close(r1s, r2, 1e-12):
+        out.append(("purity:%s:not-repeatable" % name, "two successive calls of %s with identical arguments differ: %r vs %r" % (name, r1s, r2)))
+    if not _same(before, args):
+        out.append(("purity:%s:mutates-input" % name, "%s modified one of its array arguments in place" % name))
+    return r1
+
+
+HIST_FNS = ["weights", "embed_call", "jacobian", "W", "A", "prob_sample", "mean_photons", "mean_clicks", "n_mean",
+            "kl_evaluate", "kl_grad", "st_evaluate", "st_grad", "h_reparam", "grad_one"]
+HIST_ARGS = ["same", "same", "same", "copy", "list", "view", "asarray", "strided", "f32like"]
+HIST_UPD = ["isub", "setitem", "slice", "clip", "rebind", "imul", "fill_back", "noop"]
+
+
+def gen_hist(rng):
+    base = gen_train(rng)
+    base["family"] = "hist"
+    A = np.array(base["A"])
+    n = len(A)
+    F = np.eye(n) if base["emb"]["kind"] == "exp" else np.array(base["emb"]["F"])
+    d = F.shape[1]
+    try:
+        A0 = tparam.rescale_adjacency(A, base["n_mean"], base["threshold"])
+    except Exception:  # noqa: BLE001
+        A0 = None
+
+    def valid(th):
+        w = np.exp(-F @ th)
+        return A0 is not None and np.max(w) < 1.6 and np.min(w) > 0.15 and np.linalg.norm(np.sqrt(np.outer(w, w)) * A0, 2) < 0.93
+
+    th = np.array(base["theta"], dtype=float)
+    steps = []
+    for _ in range(rng.choice([4, 6, 8])):
+        # an update of the parameter vector (how it is applied matters: in place on the same ndarray, or a new array)
+        how = rng.choice(HIST_UPD)
+        if how == "noop":
+            new = th.copy()
+        elif how == "setitem":
+            new = th.copy()
+            new[rng.randrange(d)] += rng.choice([1e-5, -1e-5, 0.05, -0.1, 0.2])
+        else:
+            new = th + np.array([rng.choice([0.0, 0.03, -0.07, 0.15, -0.2]) for _ in range(d)])
+        if not valid(new):
+            new = th * 0.5
+        if not valid(new):
+            new = np.zeros(d)
+        steps.append({"op": "update", "how": how, "theta": _lst(new)})
+        th = new
+        for _ in range(rng.choice([1, 2, 3])):
+            r = rng.random()
+            if r < 0.12:
+                steps.append({"op": "add", "rows": rng.choice([1, 2])})
+            elif r < 0.2:
+                steps.append({"op": "get", "n": rng.choice([1, 2, 3])})
+            else:
+                steps.append({"op": "call", "fn": rng.choice(HIST_FNS), "arg": rng.choice(HIST_ARGS), "scribble": rng.random() < 0.3})
+    base["steps"] = steps
+    base["T"] = max(base["T"], 3)
+    return base
+
+
+def _hist_objects(S, case, store):
+    emb, _ = make_embedding(case)
+    vg = tparam.VGBS(S["A"].copy(), case["n_mean"], emb, case["threshold"], samples=np.array(store, dtype=int).copy())
+    kl = tcost.KL(S["data"].copy(), vg)
+    st = tcost.Stochastic(make_h(case), vg)
+    return {"emb": emb, "vg": vg, "kl": kl, "st": st}
+
+
+def _hist_call(o, fn, arg, sample, N):
+    emb, vg, kl, st = o["emb"], o["vg"], o["kl"], o["st"]
+    if fn == "weights":
+        return emb.weights(arg)
+    if fn == "embed_call":
+        return emb(arg)
+    if fn == "jacobian":
+        return emb.jacobian(arg)
+    if fn == "W":
+        return vg.W(arg)
+    if fn == "A":
+        return vg.A(arg)
+    if fn == "prob_sample":
+        return vg.prob_sample(arg, sample)
+    if fn == "mean_photons":
+        return vg.mean_photons_by_mode(arg)
+    if fn == "mean_clicks":
+        return vg.mean_clicks_by_mode(arg)
+    if fn == "n_mean":
+        return vg.n_mean(arg)
+    if fn == "kl_evaluate":
+        return kl.evaluate(arg)
+    if fn == "kl_grad":
+        return kl.grad(arg)
+    if fn == "st_evaluate":
+        return st.evaluate(arg, N)
+    if fn == "st_grad":
+        return st.grad(arg, N)
+    if fn == "h_reparam":
+        return st.h_reparametrized(sample, arg)
+    if fn == "grad_one":
+        return st._gradient_one_sample(sample, arg)
+    raise KeyError(fn)
+
+
+def check_hist(case):
+    """One embedding / VGBS / KL / Stochastic instance driven through a history of calls with an in-place updated, aliased,
+    viewed or freshly allocated parameter array and interleaved sample-store updates; every result is compared with fresh
+    objects evaluated at a fresh copy of the current values, and no call may modify its arguments."""
+    out = []
+    try:
+        S = train_setup(case)
+    except Exception as e:  # noqa: BLE001
+        return [("hist:setup-raises:" + type(e).__name__, "building the objects raised %r" % (e,))]
+    data, n = S["data"], S["n"]
+    store = [list(map(int, data[0]))]
+    live = _hist_objects(S, case, store)
+
+    def no_gen(*a, **k):
+        raise AssertionError("generate_samples called although enough samples are stored")
+
+    live["vg"].generate_samples = no_gen
+    p = np.array(case["theta"], dtype=float)
+    backing = None
+    sample = np.array(data[0], dtype=int)
+    F_before = None if case["emb"]["kind"] == "exp" else np.array(case["emb"]["F"], dtype=float)
+    seen = set()
+    for k, stp in enumerate(case["steps"]):
+        try:
+            if stp["op"] == "update":
+                v = np.array(stp["theta"], dtype=float)
+                how = stp["how"]
+                if how == "isub":
+                    p -= (p - v)
+                elif how == "setitem":
+                    for j in range(len(v)):
+                        if p[j] != v[j]:
+                            p[j] = v[j]
+                elif how == "slice":
+                    p[:] = v
+                elif how == "clip":
+                    np.clip(p, v, v, out=p)
+                elif how == "imul":
+                    p *= 0.0
+                    p += v
+                elif how == "fill_back":
+                    old = p.copy()
+                    p[:] = v          # visit the new value ...
+                    _hist_call(live, "weights", p, sample, len(store))
+                    p[:] = old        # ... go back ...
+                    _hist_call(live, "weights", p, sample, len(store))
+                    p[:] = v          # ... and forth again, all on the same ndarray
+                elif how == "rebind":
+                    p = v.copy()
+                continue
+            if stp["op"] == "add":
+                rows = [list(map(int, data[(len(store) + i) % len(data)])) for i in range(stp["rows"])]
+                live["vg"].add_A_init_samples(np.array(rows, dtype=int))
+                store += rows
+                continue
+            if stp["op"] == "get":
+                m = min(stp["n"], len(store))
+                got = np.asarray(live["vg"].get_A_init_samples(m))
+                if got.shape != (m, n) or not np.array_equal(got, np.array(store[:m])):
+                    out.append(("history:sample-store", "after %d additions get_A_init_samples(%d) returned %r, stored so far %r" % (len(store) - 1, m, got.tolist(), store)))
+                    return out
+                continue
+            fn, mode = stp["fn"], stp["arg"]
+            if mode == "same":
+                arg = p
+            elif mode == "copy":
+                arg = p.copy()
+            elif mode == "list":
+                arg = [float(x) for x in p]
+            elif mode == "view":
+                arg = p[:]
+            elif mode == "asarray":
+                arg = np.asarray(p)
+            elif mode == "strided":
+                backing = np.zeros(2 * len(p))
+                backing[::2] = p
+                arg = backing[::2]
+            else:  # values that are exactly representable copies held in a Fortran-ordered 2-d buffer
+                buf = np.asfortranarray(np.vstack([p, p]))
+                arg = buf[1]
+            arg_before, samp_before, data_before = _snap(arg), sample.copy(), live["kl"].data.copy()
+            Ainit_before = live["vg"].A_init.copy()
+            N = len(store)
+            res = _hist_call(live, fn, arg, sample, N)
+            fresh = _hist_objects(S, case, store)
+            ref = _hist_call(fresh, fn, np.array([float(x) for x in p]), sample.copy(), N)
+            if not _res_close(res, ref, 1e-9) and fn not in seen:
+                seen.add(fn)
+                out.append(("history:%s:depends-on-history" % fn,
+                            "step %d: %s(theta=%r passed as '%s') on a live object returned %r, a fresh object at the same values returns %r"
+                            % (k, fn, _lst(p), mode, np.asarray(res).tolist(), np.asarray(ref).tolist())))
+            if not _same(arg_before, arg) or not np.array_equal(samp_before, sample):
+                out.append(("history:%s:mutates-input" % fn, "step %d: %s modified its parameter / sample argument in place" % (k, fn)))
+            if not np.array_equal(data_before, live["kl"].data) or not np.array_equal(Ainit_before, live["vg"].A_init):
+                out.append(("history:%s:mutates-state" % fn, "step %d: %s modified the stored data / initial matrix" % (k, fn)))
+            if F_before is not None and not np.array_equal(F_before, np.asarray(live["emb"].features)):
+                out.append(("history:%s:mutates-state" % fn, "step %d: %s modified the feature matrix" % (k, fn)))
+            if stp.get("scribble") and isinstance(res, np.ndarray) and res.dtype.kind == "f":
+                res += 1.0  # the caller owns the returned array; writing to it must not corrupt later results
+        except AssertionError as e:
+            out.append(("history:sample-store", "step %d: %s" % (k, e)))
+            return out
+        except Exception as e:  # noqa: BLE001
+            out.append(("history:raises:%s" % type(e).__name__, "step %d (%r) raised %r" % (k, stp, e)))
+            return out
+    return out
+
+
+GENS["hist"] = gen_hist
+CHECKS["hist"] = check_hist
 
 
 # ======================================================================================
@@ -1236,11 +1686,11 @@ def search(ctx):
         for sig, what in run_check(case):
             ctx.counterexample(sig, what, {"case": case})
     plan = [("train", ctx.budget(60, 450)), ("sim", ctx.budget(25, 200)), ("dyn", ctx.budget(20, 150)), ("vib", ctx.budget(20, 150)),
-            ("dus", ctx.budget(25, 300)), ("marg", ctx.budget(20, 150)), ("bad", ctx.budget(16, 60)), ("smp", ctx.budget(60, 300))]
+            ("dus", ctx.budget(25, 300)), ("marg", ctx.budget(20, 150)), ("bad", ctx.budget(16, 60)), ("smp", ctx.budget(60, 300)), ("hist", ctx.budget(30, 200))]
     for fam, k in plan:
         for _ in range(k):
-            case = GENS[fam](rng, big=not ctx.quick) if fam == "train" else GENS[fam](rng)
-            ctx.case(case, nontrivial=nontrivial(case), bucket=fam + ("-" + case["kind"] if fam in ("bad", "smp") else ""))
+            case = gen_case(rng, fam, big=not ctx.quick)
+            ctx.case(case, nontrivial=nontrivial(case), bucket=fam + ("-" + case["kind"] if fam in ("bad", "smp") else "") + ("-hbar" if case.get("hbar_global") else ""))
             for sig, what in run_check(case):
                 ctx.counterexample(sig, what, {"case": case})
 
